@@ -55,6 +55,9 @@ CLAIMED = {
  "C16": ("Partial: proof of two sufficient disciplines only - lock-state preconditions of every mutex operation (no recursive acquisition, unlock only what is held, child node after parent only) and guarded-by obligations for fidRef.opened/openFlags; tree acyclicity invariant used for child-after-parent.",
          "NOT decided: progress (every request answered, lost wake-ups on channels/WaitGroup) and observational isolation are whole-system liveness / 2-safety properties outside per-function contracts. Lock-order levels between different mutex classes and a guarded-by classification of every shared field are not built (only fidRef.opened/openFlags and qids.Mapper.paths are classified). F13 (self-deadlock through DecRef->removeChild) and F8 fixed.",
          "4-C16"),
+ "C17": ("Proof, for every segmentation (each Read / recvmsg returns an arbitrary count within its bounds): generic io.Reader path of vecnet.Buffers.ReadFrom against its body - every buffer is filled completely, in order, with exactly the next bytes of the stream (byte k of buffer i is stream byte c0 + sum of earlier lengths + k; nested loop invariants), success iff everything was read, consumed count = bytes delivered; socket path readFromBuffersLinux - in-place advancing of the iovec list after partial reads never indexes past the list, accounts for every byte recvmsg reports, terminates, and succeeds only after consuming exactly the total length; recv reads the 7-byte header with ReadAtLeast, hands ReadFrom exactly the fixed-part and payload vectors whose lengths add up to size-7, decodes only after a complete body, and on success has consumed exactly the declared frame size (so the next frame starts at the right byte); a stream ending mid-frame yields ConnError.",
+         "Partial. ASSUMED: recvmsg (one readv through syscall.RawConn.Read with unsafe iovecs - outside the generator's subset) consumes at most the total buffer length and at least one byte when it reports no error; that the bytes land at the right places on the socket path after a partial read (assumed_ensures, listed); io.ReadAtLeast / io.Reader.Read contracts over the ghost stream; the pooled fixed-part buffer and a payload buffer are different arrays (presumed at recv's call). sumlens (sum of buffer lengths) is an uninterpreted function whose defining unfoldings are injected where contracts name them (true by definition; induction on paper). Send side / several frames per read follow from the exact-consumption postcondition by induction over frames, on paper.",
+         "4-C17"),
  "C18": ("Proof: every decoder is verified with the receiver object in an arbitrary initial state (recycled object), so its postcondition 'fields are a function of the frame' forces every list to be reset and every field assigned; read replies carry at most count bytes written by this request's ReadAt.",
          "registry.get/put are abstract; recv's payload-buffer handling is verified. Bridge contracts as in C01.",
          "4-C18"),
@@ -68,7 +71,6 @@ CLAIMED = {
 
 NOT_YET = "check not built"
 NA = {
- "C17": "Not decided by contracts within reach: the property lives in vecnet.readFromBuffersLinux (readv through syscall.RawConn.Read with a callback run by the runtime, iovecs built with unsafe pointers) and in the nested loops of Buffers.ReadFrom over a slice of slices that is mutated in place. The generator's subset has no closures executed by foreign functions and no unsafe pointer arithmetic, and a contract for only the portable path does not decide 'both receive paths'. (Buffers).ReadFrom is therefore an assumed contract of recv (listed under C02). DESIGN.md 0f.",
 }
 
 def main():
